@@ -21,7 +21,7 @@ LABELS = {
     "str": lambda i: "ABCDE"[i],
     "rev": lambda i: "EDCBA"[i],
     "int": lambda i: [3, 1, 4, 0, 2][i],
-    "mixed": lambda i: ["x", 7, ("t", 1), "y", 0][i],
+    "mixed": lambda i: ["x", 0, ("t", 1), "y", 7][i],
 }
 
 
@@ -43,7 +43,7 @@ def scenarios(tier, seed):
                             labs = list(LABELS)[k % 4] if tier == "quick" else None
                             for lab in ([labs] if labs else list(LABELS)):
                                 out.append(dict(family=f"lazy/active_trail/n{n}", mode="lazy", n=n, x=x, Z=list(Z), latents=list(lat),
-                                                include_latents=incl, labels=lab, obs_type=["list", "set", "tuple", "single"][k % 4],
+                                                include_latents=incl, labels=lab, obs_type=["list", "set", "tuple", "single"][(k // 4 + k) % 4],
                                                 hashseed=k % 2, budget_s=60, max_paths=4000))
     for n in (3, 4):
         for x in range(n):
@@ -236,6 +236,18 @@ def run_eager(desc, M):
                 got = g.active_trail_nodes(lab(x), observed=[lab(z) for z in Z])[lab(x)]
                 want = {lab(x)} | {lab(y) for y in others if y not in Z and dc[(x, y, Z)]}
                 M.check(got == want, "active_trail_nodes equals the d-connected set", detail=f"x={lab(x)} Z={Z} got={got} want={want}")
+                # the same question with the observed set given as set / tuple / single node (a tuple-named node cannot be given bare: it reads as a list)
+                forms = [("set", {lab(z) for z in Z}), ("tuple", tuple(lab(z) for z in Z))]
+                if len(Z) == 1 and not isinstance(lab(Z[0]), tuple):
+                    forms.append(("single node", lab(Z[0])))
+                for fname, form in forms:
+                    got2 = g.active_trail_nodes(lab(x), observed=form)[lab(x)]
+                    M.check(got2 == want, f"active_trail_nodes with observed given as {fname} equals the d-connected set",
+                            detail=f"x={lab(x)!r} observed={form!r} got={got2} want={want}")
+                    for y in others:
+                        if y not in Z:
+                            M.check(g.is_dconnected(lab(x), lab(y), observed=form) == dc[(x, y, Z)], f"is_dconnected with observed given as {fname} matches the definition",
+                                    detail=f"{lab(x)!r},{lab(y)!r} | {form!r}")
     # multi-variable form
     res = g.active_trail_nodes([lab(i) for i in range(n)])
     M.check(set(res) == {lab(i) for i in range(n)}, "active_trail_nodes(list) keys")
@@ -264,6 +276,21 @@ def run_eager(desc, M):
             M.check(ok, "local_independencies = (v _|_ non-descendants minus parents | parents)", detail=f"{lab(v)}: {asr}")
         else:
             M.check(len(asr) == 0, "local_independencies empty when there is nothing to assert", detail=str(asr))
+    if n >= 2:
+        def li_want(v):
+            pa = {u for u in range(v) if E[(u, v)]}
+            nd = {u for u in range(n) if u != v and not D[v][u]} - pa
+            return (frozenset([lab(v)]), frozenset(lab(u) for u in nd), frozenset(lab(u) for u in pa)) if nd else None
+        orders = [list(range(n)), list(range(n))[::-1], list(range(n))[1:] + [0]] + ([[n - 1, 0]] if n >= 3 else [])
+        for order in orders:
+            for form in (list, tuple):
+                if form is tuple and any(isinstance(lab(v), tuple) for v in order):
+                    continue
+                li = g.local_independencies(form(lab(v) for v in order))
+                got = {(frozenset(a.event1), frozenset(a.event2), frozenset(a.event3)) for a in li.get_assertions()}
+                want = {li_want(v) for v in order} - {None}
+                M.check(got == want, "local_independencies of several variables = the local Markov statement of each, whatever the order they are listed in",
+                        detail=f"{form.__name__} {[lab(v) for v in order]}: got {sorted(map(str, got))} want {sorted(map(str, want))}")
     # markov blanket, moral graph, ancestral graph
     for v in range(n):
         want = set()
